@@ -135,7 +135,7 @@ def run_unit(unit, rlimit=30, seed=None, outdir=None, extra_flags=(), multiple_e
         res.wall = time.time() - t0
         return res
     res.meta = meta
-    cmd = [VERUS, path, "--output-json", "--time", "--error-format=json", "--multiple-errors", str(multiple_errors), "--rlimit", str(meta.get("rlimit") or rlimit), "--no-report-long-running"]
+    cmd = [VERUS, path, "--output-json", "--time", "--error-format=json", "--multiple-errors", str(multiple_errors), "--rlimit", str(meta.get("rlimit") or rlimit), "--no-report-long-running", "-V", "spinoff-all"]   # one solver instance per function: a failing function does not slow down or disturb the others
     cmd += list(meta.get("flags", [])) + list(extra_flags)
     if seed is not None:
         cmd += ["--smt-option", "smt.random_seed=%d" % seed]
